@@ -34,7 +34,26 @@ Definition echo_view (rs : list Text.record) (n : list bytes) (enc : ecs -> ecsv
 Definition view_of (rs : list Text.record) (n : list bytes) (rip : N) (cq : Ecs.query) : bytes :=
   view_bytes (client_view rs n rip (option_map ecs_in_of (query_ecs cq))).
 
-(* FindLocation on a database whose FindMap is the map choice and whose GetLocationByMap is longest-prefix match *)
+(* FindLocation on a database whose FindMap is the map choice and whose GetLocationByMap is longest-prefix match:
+   the location the spec names, and the request's option with the scope the spec names *)
+Lemma client_location_is_view : forall rs lb dbl cq (n : Answer.name) rip,
+  (forall kind, kind = 77 \/ kind = 56 ->
+     find_map lb dbl [0; kind] (pack_labels n) = Ok (option_map mapid_bytes (map_choice (declared_maps rs) kind n))) ->
+  (forall m c, wf_client c -> exists r, get_location lb dbl m c = Ok r /\
+     hit_of r = lpm (file_nets rs m) (cfam c) (search_addr true c) (eff_plen c)) ->
+  q_rip cq = Some rip -> rip < two128 -> (forall e, query_ecs cq = Some e -> wf_ecs e) ->
+  exists loc, client_location lb dbl (pack n) cq =
+                Ok (option_map (fun e => set_scope e (scope_view rs n (ecs_in_of e))) (query_ecs cq), loc) /\
+              l_loc loc = client_view rs n rip (option_map ecs_in_of (query_ecs cq)).
+Proof.
+  intros rs lb dbl cq n rip FM GL Hrip Hlt Hecs. unfold client_location. rewrite pack_pack_labels.
+  destruct (find_client_location_spec (file_nets rs) true _ _ (get_location lb dbl) GL cq _ _ rip
+              (FM 56 (or_intror eq_refl)) (FM 77 (or_introl eq_refl)) Hrip Hlt Hecs) as (e' & loc & E & D & Ee).
+  rewrite (map_of_choice rs 56 n), (map_of_choice rs 77 n) in D. rewrite (map_of_choice rs 56 n) in Ee.
+  rewrite <- client_view_decides in D. exists loc. split; [|exact D]. rewrite E. f_equal. f_equal.
+  rewrite Ee. destruct (query_ecs cq) as [e|]; [|reflexivity]. cbn [option_map]. rewrite scope_view_expected. reflexivity.
+Qed.
+
 Lemma handle_is_serve : forall rs lb b dbl st q cq enc max (n : Answer.name) rip,
   (forall kind, kind = 77 \/ kind = 56 ->
      find_map lb dbl [0; kind] (pack_labels n) = Ok (option_map mapid_bytes (map_choice (declared_maps rs) kind n))) ->
@@ -44,16 +63,11 @@ Lemma handle_is_serve : forall rs lb b dbl st q cq enc max (n : Answer.name) rip
   q_rip cq = Some rip -> rip < two128 -> (forall e, query_ecs cq = Some e -> wf_ecs e) ->
   handle lb b dbl st q cq enc max = Serve.serve b st q (LocOk (view_of rs n rip cq)) (echo_view rs n enc cq) max.
 Proof.
-  intros rs lb b dbl st q cq enc max n rip FM GL Hq Hrip Hlt Hecs. unfold handle, client_location.
-  rewrite Hq, pack_pack_labels.
-  destruct (find_client_location_spec (file_nets rs) true _ _ (get_location lb dbl) GL cq _ _ rip
-              (FM 56 (or_intror eq_refl)) (FM 77 (or_introl eq_refl)) Hrip Hlt Hecs) as (e' & loc & E & D & Ee).
-  rewrite E. rewrite (map_of_choice rs 56 n), (map_of_choice rs 77 n) in D. rewrite (map_of_choice rs 56 n) in Ee.
-  rewrite <- client_view_decides in D.
+  intros rs lb b dbl st q cq enc max n rip FM GL Hq Hrip Hlt Hecs. unfold handle. rewrite Hq.
+  destruct (client_location_is_view rs lb dbl cq n rip FM GL Hrip Hlt Hecs) as (loc & E & D). rewrite E.
   f_equal.
   - unfold view_of, view_bytes, Rearranger.loc_bytes. rewrite D. reflexivity.
-  - unfold echo_view. rewrite Ee. destruct (query_ecs cq) as [e|]; [|reflexivity]. cbn [option_map].
-    rewrite scope_view_expected. reflexivity.
+  - unfold echo_view. destruct (query_ecs cq) as [e|]; reflexivity.
 Qed.
 
 Lemma view_loc_okb : forall o serial f n rip cq, subnet_locs_okb o serial f = true ->
